@@ -27,7 +27,7 @@ ASSUME = ["gfortran -std=gnu accepts the module", "documentation blocks are plac
 
 def plan(tier):
     if tier == "quick":
-        return {"ncases": 4000, "nshards": 16, "budget_s": 75, "floor": 80000, "stall_s": 60}
+        return {"ncases": 4000, "nshards": 16, "budget_s": 75, "floor": 30000, "stall_s": 60}
     return {"ncases": 30000, "nshards": 16, "budget_s": 1800, "floor": 800000, "stall_s": 300}
 
 
